@@ -5,6 +5,7 @@ from vlib import xhex, rnd_u64
 from props.codec_common import CODEC_TRUSTED
 
 THEOREMS = ["C07_validate_iff", "C07_rejects_nonempty", "C07_decoded_shape", "C07_on_decoded"]
+RELEASE = True          # debug and release builds of the harness (debug_assert!, overflow checks, cfg(debug_assertions))
 RULE = ("VALIDATE x<bytes>: bytes of the Python reference encoder for bundles drawn from the property's rule space (any subset of "
         "the nine defined control flags and the six bits of the reserved mask, creation time zero/non-zero, anonymous/named source, "
         "block lists of up to 4 blocks from {payload, previous node, bundle age, hop count, unknown} x numbers {1,2,3} x status-report "
@@ -53,6 +54,9 @@ def dont_care(b):
 
 def _mk_block(rng, kind, num, status):
     t = KTYPE[kind]
+    if kind == "unknown" and rng.random() < 0.6:
+        # unknown types incl. the ones that alias a known type (1, 6, 7, 10) under truncation to 8 / 16 / 32 bits, and 8 / 9
+        t = rng.choice(genb.UNKNOWN_TYPES)
     return dict(type=t, num=num, flags=2 if status else rng.choice([0, 0, 1, 4, 16]), crc=("N",), data=genb.rnd_data(rng, t))
 
 
@@ -125,6 +129,21 @@ def corpus():
             cs = ([dict(type=7, num=2, flags=0, crc=("N",), data=("AGE", 7))] if with_age else []) + \
                  [dict(type=1, num=1, flags=0, crc=("N",), data=("DATA", b"x"))]
             out.append(_line(dict(p=p, cs=cs)))
+    # unknown block types that alias bundle age / hop count / previous node / payload under truncation: they are neither
+    for t in (263, 65543, 2 ** 32 + 7, 2 ** 64 - 249):          # "age" aliases: creation time 0 still needs a real bundle age block
+        p = genb.rnd_primary(rng, crc_kind=0, fragment=False)
+        p.update(flags=0, t=0, src=("DTN", 1, b"//n/a"))
+        out.append(_line(dict(p=p, cs=[dict(type=t, num=2, flags=0, crc=("N",), data=("UNK", b"\x07")),
+                                       dict(type=1, num=1, flags=0, crc=("N",), data=("DATA", b"x"))])))
+    for t, real, d in ((266, 10, ("HOP", 3, 1)), (262, 6, ("PREV", ("IPN", 2, 1, 1))), (2 ** 32 + 10, 10, ("HOP", 3, 1)), (65543, 7, ("AGE", 5))):
+        p = genb.rnd_primary(rng, crc_kind=0, fragment=False)      # one alias + one real block of the type: valid, not a duplicate
+        p.update(flags=0, t=5, src=("DTN", 1, b"//n/a"))
+        out.append(_line(dict(p=p, cs=[dict(type=t, num=3, flags=0, crc=("N",), data=("UNK", b"")), dict(type=real, num=2, flags=0, crc=("N",), data=d),
+                                       dict(type=1, num=1, flags=0, crc=("N",), data=("DATA", b"x"))])))
+    for t in (257, 65537):                                         # "payload" alias does not make a payload block
+        p = genb.rnd_primary(rng, crc_kind=0, fragment=False)
+        p.update(flags=0, t=5, src=("DTN", 1, b"//n/a"))
+        out.append(_line(dict(p=p, cs=[dict(type=t, num=1, flags=0, crc=("N",), data=("UNK", b"x"))])))
     return out
 
 
